@@ -73,7 +73,10 @@ def credentials := ["param", "src codefiles", "src program"]
 def deviceAddr := ["call os.Getenv", "const \"SIMULATE_ROUTER\"", "const \"https://\"", "param"]
 
 /-- The non-constant data arguments on the compare path, each justified: (package, sinks the data
-may reach, leaves of the data flow). -/
+may reach, leaves of the data flow).  Module-local helpers (unexported, every use a static call
+from their own package) are looked through: a parameter of such a helper stands for the arguments
+at its call sites on the compare side, so a row of `getRawJSON` / `sendRequest` / `httpPrefixGetLog`
+lists the path / query constants its compare-side callers hand in (and none of the apply side). -/
 def wFlowAllowed : List (String × List String × List String) := [
   -- user name (ssh command line) and password (answer to the password prompt) of the device, from
   -- the settings / the credentials file, looked up by the name of the code file
@@ -87,23 +90,29 @@ def wFlowAllowed : List (String × List String × List String) := [
   ("nsx", [kDo, kReqUrl], ["const \"/\"", "const \"/policy/api/v1/infra/domains/default/gateway-policies\"",
     "const \"/policy/api/v1/infra/domains/default/groups\"", "const \"/policy/api/v1/infra/services\"",
     "reply (*net/http.Client).Do"]),
-  ("nsx", [kDo, kReqUrl], ["const \"?cursor=\"", "param", "reply (*net/http.Client).Do"]),
+  ("nsx", [kDo, kReqUrl], ["const \"/policy/api/v1/infra/domains/default/gateway-policies\"",
+    "const \"/policy/api/v1/infra/domains/default/groups\"", "const \"/policy/api/v1/infra/services\"",
+    "const \"?cursor=\"", "reply (*net/http.Client).Do"]),
   -- NSX: the login — URL of the session service at the device's address, form with user and password
   ("nsx", [kPostUrl], ["call os.Getenv", "const \"/api/session/create\"", "const \"SIMULATE_ROUTER\"", "const \"https://\"", "param"]),
   ("nsx", [kPostForm], ["call (net/url.Values).Set", "const \"j_password\"", "const \"j_username\"", "const \"xxx\"", "param"]),
   -- NSX: every request = device address + path parameter; the assembled request with the session
   -- token of the login answer and the content type
-  ("nsx", [kReqUrl], deviceAddr),
+  ("nsx", [kReqUrl], ["call os.Getenv", "const \"/\"", "const \"/policy/api/v1/infra/domains/default/gateway-policies\"",
+    "const \"/policy/api/v1/infra/domains/default/groups\"", "const \"/policy/api/v1/infra/services\"",
+    "const \"?cursor=\"", "const \"SIMULATE_ROUTER\"", "const \"https://\"", "param", "reply (*net/http.Client).Do"]),
   ("nsx", [kDo], ["call (net/http.Header).Set", "const \"application/json\"", "const \"content-type\"",
     "const \"x-xsrf-token\"", "reply (*net/http.Client).PostForm", "reply net/http.NewRequest"]),
   -- PAN-OS: address of the device; the key generation request; every other request = address,
   -- the API key the device answered, the query parameter
   ("panos", [kGet], deviceAddr),
   ("panos", [kGet], ["call (*net/url.URL).String", "call (net/url.Values).Encode", "call (net/url.Values).Set",
-    "call net/url.Parse", "const \"api\"", "const \"keygen\"", "const \"password\"", "const \"type\"", "const \"user\"",
-    "param", "set Path", "set RawQuery"]),
+    "call net/url.Parse", "call os.Getenv", "const \"SIMULATE_ROUTER\"", "const \"api\"", "const \"https://\"",
+    "const \"keygen\"", "const \"password\"", "const \"type\"", "const \"user\"", "param", "set Path", "set RawQuery"]),
   ("panos", [kGet], ["call os.Getenv", "const \"&\"", "const \"/api/?key=\"", "const \"SIMULATE_ROUTER\"",
-    "const \"https://\"", "param", "reply (*net/http.Client).Get"]),
+    "const \"https://\"", "const \"type=config&action=get&xpath=/config/devices\"",
+    "const \"type=op&cmd=<show><high-availability><state/></high-availability></show>\"", "param",
+    "reply (*net/http.Client).Get"]),
   -- the ssh process (or the simulator) and the TCP dialer of the HTTP client
   ("console", [kSpawn], ["call os.Getenv", "call strings.Fields", "const \" -W %h:%p\"", "const \"-l\"", "const \"-o\"",
     "const \"ProxyCommand ssh \"", "const \"SIMULATE_ROUTER\"", "const \"ssh\"", "param", "src codefiles"]),
